@@ -10,7 +10,7 @@
    iff some placement of them between the calls and returns makes it a behaviour of PagePool.  `want` only prunes
    the search: a Take of another page than the one returned, a Fail of a pop that returns a page, or a Claim by a
    pop that returns failure can never be followed by the logged return event, and a pop that never returns
-   influences the others only through its Claim.
+   influences the others only through its Claim (Strict: its ClaimTake of any page).
    An abort event ("a": a failed assert() of the code) is never accepted. *)
 EXTENDS PagePool, TraceLib
 VARIABLES h, l, want
@@ -29,6 +29,7 @@ TLin == /\ l <= Len(Events(h)) /\ UNCHANGED <<h, l, want>>
         /\ \E p \in Proc : \/ want[p] = -1 /\ Fail(p)
                            \/ want[p] # -1 /\ Claim(p)
                            \/ want[p] >= 0 /\ (Take(p, want[p]) \/ ClaimTake(p, want[p]))
+                           \/ want[p] = -2 /\ \E g \in free : ClaimTake(p, g)
                            \/ Show(p) \/ Count(p) \/ ShowCount(p)
 TNext == TCall \/ TRet \/ TLin
 Mark == MarkAccepted(h, l)
